@@ -548,6 +548,9 @@ class AsyncClient(base_client.BaseClient):
                 await self.queue.put(None)
                 break
             for pkt in p.packets:
+                if self.state != 'connected':
+                    # disconnected while the request was in progress
+                    break
                 await self._receive_packet(pkt)
 
         if self.write_loop_task:  # pragma: no branch
@@ -603,6 +606,9 @@ class AsyncClient(base_client.BaseClient):
                 self.logger.info(
                     'Unexpected error decoding packet: "%s", aborting', str(e))
                 await self.queue.put(None)
+                break
+            if self.state != 'connected':
+                # disconnected while waiting for this packet
                 break
             await self._receive_packet(pkt)
 
